@@ -17,6 +17,59 @@ Theorem c04_des_in_bounds : forall c, cap_ok c -> forall capB t prior buf,
 Proof. exact des_in_bounds. Qed.
 Print Assumptions c04_des_in_bounds.
 
+
+(* ---- serialization: every access in bounds, whatever the object holds; a buffer that passes the up-front test is never TOO_SMALL later ---- *)
+Theorem c04_ser_in_bounds : forall c, cap_ok c -> forall t o capB,
+  wf_ty t = true -> align t = 8 -> bmax t <= 8 * capB ->
+  forallb (acc_ok capB) (snd (walk_ser_safe c t o capB)) = true /\ fst (walk_ser_safe c t o capB) <> Err ETooSmall.
+Proof. exact ser_in_bounds. Qed.
+Print Assumptions c04_ser_in_bounds.
+
+(* ---- the outcome of a deserialization (value, consumed size, error) is that of the prior-free walker of Codec/Walker.v ---- *)
+Theorem c04_des_obs_eq_walker : forall c t prior buf,
+  obs_res t (fst (walk_des_safe c t prior buf)) = walk_des ref_prims t buf.
+Proof. exact des_obs_eq_walker. Qed.
+Print Assumptions c04_des_obs_eq_walker.
+
+Theorem c04_des_prior_indep : forall c t prior1 prior2 buf,
+  obs_res t (fst (walk_des_safe c t prior1 buf)) = obs_res t (fst (walk_des_safe c t prior2 buf)).
+Proof. exact des_prior_indep. Qed.
+Print Assumptions c04_des_prior_indep.
+
+
+(* ---- totality: the walkers are total functions (structural recursion on the type and the element count, no fuel) and report
+   only documented errors ---- *)
+Theorem c04_des_total : forall c t prior buf,
+  (exists v k, fst (walk_des_safe c t prior buf) = Ok (v, k)) \/
+  (exists e, fst (walk_des_safe c t prior buf) = Err e /\ des_err_documented e = true).
+Proof. exact des_total. Qed.
+Print Assumptions c04_des_total.
+
+Theorem c04_ser_total : forall c t o capB,
+  (exists n, fst (walk_ser_safe c t o capB) = Ok n) \/
+  (exists e, fst (walk_ser_safe c t o capB) = Err e /\ ser_err_documented e = true).
+Proof. exact ser_total. Qed.
+Print Assumptions c04_ser_total.
+
+(* ---- pointer formation past the end (F-C-PTR-PAST-END) ---- *)
+Theorem c04_des_ptr_in_bounds_refuted :
+  exists t prior buf capB, wf_ty t = true /\ length buf = 8 * capB /\
+    forallb (ptr_ok capB) (snd (walk_des_safe (std_cfg false) t prior buf)) = false.
+Proof. exact des_ptr_in_bounds_refuted. Qed.
+Print Assumptions c04_des_ptr_in_bounds_refuted.
+
+(* ---- non-vacuity: a union inside a delimited struct decoded into two different prior objects, and serialized in bounds ---- *)
+Definition ex_t : ty :=
+  TComp false [TPrim PBool; TVar (TPrim (PU 7 true)) 3; TComp true [TPrim (PU 16 true); TVar (TPrim PBool) 9] None] (Some 128).
+Example c04_ex_des :
+  obs_res ex_t (fst (walk_des_safe (std_cfg true) ex_t dflt (bits_of_bytes [3; 170; 1; 2; 1; 0; 0]%N)))
+  = obs_res ex_t (fst (walk_des_safe (std_cfg true) ex_t
+        (CStruct [CPrim (VBool true); CVar 77 [CPrim (VInt 9)]; CUnion 5 (CVar 3 [])]) (bits_of_bytes [3; 170; 1; 2; 1; 0; 0]%N)))
+  /\ exists v k, obs_res ex_t (fst (walk_des_safe (std_cfg true) ex_t dflt (bits_of_bytes [3; 170; 1; 2; 1; 0; 0]%N))) = Ok (v, k).
+Proof. split; [apply des_prior_indep | vm_compute; eexists; eexists; reflexivity]. Qed.
+Example c04_ex_ser : cap_ok (std_cfg true) /\ wf_ty ex_t = true /\ align ex_t = 8 /\ bmax ex_t <= 8 * 8.
+Proof. split; [intros e n; apply le_n|]. vm_compute. repeat split; repeat constructor. Qed.
+
 (* ---- a serialization refused for lack of space wrote nothing ---- *)
 Theorem c04_too_small_no_write : forall c t o capB,
   up_front c = true -> 8 * capB < bmax t -> walk_ser_safe c t o capB = (Err ETooSmall, []).
